@@ -11,6 +11,7 @@ import (
 	"sync"
 
 	"github.com/deepteams/webp/internal/dsp"
+	"github.com/deepteams/webp/internal/verifhook"
 )
 
 // minPixelsForParallel is the minimum number of pixels to justify parallel
@@ -557,6 +558,7 @@ func colorSpaceInverseTransformParallel(t *Transform, yStart, yEnd int, src, dst
 		if w == numWorkers-1 {
 			ye = yEnd
 		}
+		verifhook.Range("inv-crosscolor", yStart, yEnd, w, numWorkers, ys, ye)
 		go func(ys, ye int) {
 			colorSpaceInverseTransform(t, ys, ye, src, dst)
 			wg.Done()
